@@ -19,7 +19,7 @@
 (***************************************************************************)
 EXTENDS CfiExec, Json
 CONSTANTS MaxHist
-VARIABLES pool, sec, h, ctx, exp
+VARIABLES pool, sec, fresh, h, ctx, exp, seen
 
 Storages == {"s22", "s31", "heap", "vec"}
 Cap(s) == CASE s = "s22" -> [rows |-> 2, rules |-> 2]
@@ -40,22 +40,22 @@ Und0   == [op |-> "Undefined", r |-> 0]
 Res0   == [op |-> "Restore", r |-> 0]
 Res1   == [op |-> "Restore", r |-> 1]
 CfaX   == [op |-> "DefCfaExpression", x |-> <<OpNop>>]
-CfaReg == [op |-> "DefCfaRegister", r |-> 1]
+TCfaReg == [op |-> "DefCfaRegister", r |-> 1]
 CfaDef == [op |-> "DefCfa", r |-> 1, o |-> Nat8(1)]
 Args1  == [op |-> "ArgsSize", s |-> Nat8(1)]
 Rem    == T("RememberState")
 Pop    == T("RestoreState")
-Neg    == T("NegateRaState")
+NegRa  == T("NegateRaState")
 
 Pool == <<
   [cie |-> <<>>,            fde |-> <<Adv, Off0>>],                      \* 1 ok, no initial rules
   [cie |-> <<Off0>>,        fde |-> <<Und0, Adv, Res0>>],                \* 2 ok, one initial rule
   [cie |-> <<Off0, Val1>>,  fde |-> <<Und0, Adv, Res0, Res1>>],          \* 3 ok, initial rules kept in stack[0]
   [cie |-> <<Off0, Res0>>,  fde |-> <<Adv>>],                            \* 4 fails inside the CIE (one rule set)
-  [cie |-> <<Rem, CfaX, CfaReg>>, fde |-> <<Adv>>],                      \* 5 fails inside the CIE (2 rows, expression CFA)
+  [cie |-> <<Rem, CfaX, TCfaReg>>, fde |-> <<Adv>>],                      \* 5 fails inside the CIE (2 rows, expression CFA)
   [cie |-> <<Off0, Val1>>,  fde |-> <<Rem, Adv, Und0, Pop, Pop>>],       \* 6 fails mid-FDE after a row
   [cie |-> <<Off0, Val1>>,  fde |-> <<Rem, Adv, Rem, Rem, Rem>>],        \* 7 overflows the row stack (also of StoreOnHeap)
-  [cie |-> <<>>,            fde |-> <<Off0, Val1, Adv, Neg>>],           \* 8 overflows small rule storages
+  [cie |-> <<>>,            fde |-> <<Off0, Val1, Adv, NegRa>>],           \* 8 overflows small rule storages
   [cie |-> <<Rem, Args1>>,  fde |-> <<Rem, CfaX, Adv, CfaDef, Rem>>],    \* 9 ok, leaves 4 rows, args size, expression CFA behind
   [cie |-> <<Und0>>,        fde |-> <<Res0, Pop>>]                       \* 10 restore to the single initial rule, then empty pop
 >>
@@ -98,42 +98,29 @@ Use(m, e, via) ==
 
 Init == /\ pool = [i \in 1..N |-> Entry(i)]
         /\ sec = SecUpTo(N)
+        /\ fresh = [i \in 1..N |-> [via \in {"rows", "info"} |-> [s \in Storages |-> Use(Fresh(s), Entry(i), via).o]]]
         /\ h = <<>>
         /\ ctx = [s \in Storages |-> Fresh(s)]
         /\ exp = <<>>
+        /\ seen = <<>>
 
 Vias == {"rows", "info"}
+(* `seen` records what the long-lived contexts observed, `exp` what new    *)
+(* contexts observe for the same uses                                      *)
 Next == /\ Len(h) < MaxHist
         /\ \E i \in 1..N, via \in Vias :
              LET u == [s \in Storages |-> Use(ctx[s], pool[i], via)] IN
              /\ h' = Append(h, [i |-> i, via |-> via])
              /\ ctx' = [s \in Storages |-> u[s].m]
-             (* the expectation is the history-independent one: a new context *)
-             /\ exp' = Append(exp, [s \in Storages |-> Use(Fresh(s), pool[i], via).o])
-        /\ UNCHANGED <<pool, sec>>
-
-(* what the long-lived contexts observed at the last step *)
-LastReused == [s \in Storages |-> Use(ctx[s], pool[1], "rows").o]
-
-(* History independence: recompute the last use on the previous context    *)
-(* is not possible from the state alone, so the invariant is stated on the *)
-(* transition through a history variable: `seen` = the reused observation. *)
-VARIABLE seen
-InitH == Init /\ seen = <<>>
-NextH == /\ Len(h) < MaxHist
-         /\ \E i \in 1..N, via \in Vias :
-              LET u == [s \in Storages |-> Use(ctx[s], pool[i], via)] IN
-              /\ h' = Append(h, [i |-> i, via |-> via])
-              /\ ctx' = [s \in Storages |-> u[s].m]
-              /\ seen' = Append(seen, [s \in Storages |-> u[s].o])
-              /\ exp' = Append(exp, [s \in Storages |-> Use(Fresh(s), pool[i], via).o])
-         /\ UNCHANGED <<pool, sec>>
+             /\ seen' = Append(seen, [s \in Storages |-> u[s].o])
+             /\ exp' = Append(exp, fresh[i][via])
+        /\ UNCHANGED <<pool, sec, fresh>>
 
 (* the reset at the start of initialize makes the context equivalent to a new one *)
 Equivalent(m, s) == LET r == Reset(m) IN
                     r.stack = Fresh(s).stack /\ r.ir = Fresh(s).ir /\ r.init = Fresh(s).init
 
-InvH == /\ seen = exp                                   \* every use, on every storage: reused = fresh
+Inv ==  /\ seen = exp                                  \* every use, on every storage: reused = fresh
         /\ \A s \in Storages : Equivalent(ctx[s], s)
         /\ Len(h) > 0 =>
              PrintT(<<"CASE", ToJson(
